@@ -19,7 +19,7 @@ from . import c02
 
 PROPERTY = "C20"
 LEVEL = "exploration"
-BUDGET = {"quick": 170, "thorough": 3000}
+BUDGET = {"quick": 300, "thorough": 3000}
 ASSUMPTIONS = [
     "the snapshot covers inputs, output, class, _ast_values identities and the bytes of every array reachable from a held term; "
     "lazy_property caches and profiling counters are deliberately not part of it (the property names inputs, output, data)",
